@@ -636,16 +636,13 @@ func runC20(c *Check, a *Analysis) {
 		}
 		c.Ob("R-CLOSE-ONCE", sc.key(cc, "second Close returns ErrShutdown"), cc.Pos(), okRet, ifs(!okRet, "a second Conn.Close does not return ErrShutdown without closing the codec again"))
 		// the first Close always closes the codec (whatever the reader has noticed meanwhile)
-		firstEdges, _ := p.guardEdges(cc, negate(matchBoolField("Conn", "closing")))
-		okFirst := len(firstEdges) > 0
-		for e := range firstEdges {
-			_, _, miss := p.reachFromBlock(cc, e.to, isReturnLike, func(x ssa.Instruction) bool {
-				c2, ok := x.(*ssa.Call)
-				return ok && c2.Common().IsInvoke() && c2.Common().Method.Name() == "Close" && namedOf(c2.Common().Value.Type()) == "ClientCodec"
-			}, nil)
-			if miss {
-				okFirst = false
-			}
+		setEdges, nTests := p.guardEdges(cc, matchBoolField("Conn", "closing"))
+		okFirst := nTests > 0
+		if _, _, found := p.reachCut(cc, nil, isReturnLike, func(x ssa.Instruction) bool {
+			c2, ok := x.(*ssa.Call)
+			return ok && c2.Common().IsInvoke() && c2.Common().Method.Name() == "Close" && namedOf(c2.Common().Value.Type()) == "ClientCodec"
+		}, setEdges); found {
+			okFirst = false
 		}
 		c.Ob("R-CLOSE-ONCE", sc.key(cc, "first Close closes the codec on every path"), cc.Pos(), okFirst, ifs(!okFirst, "the first Conn.Close can return without closing the codec (e.g. when the reader has already seen the peer go away): the socket is never closed"))
 	}
